@@ -21,8 +21,10 @@ for c in conf:
         inp = v.get("inputs", {})
         arr = sorted((int(k[3:-1]), x) for k, x in inp.items() if k.startswith("in[") and k.endswith("]"))
         if arr:
-            n = inp.get("n", len(arr))
-            what += "; witness input (first n=%d bytes): %s" % (n, bytes(x for _, x in arr)[:n].hex())
+            buf = bytearray(arr[-1][0] + 1)
+            for i, x in arr:
+                buf[i] = x
+            what += "; witness input buffer: %s (length variable n=%s above its lower bound)" % (bytes(buf).hex(), inp.get("n"))
         else:
             nz = {k: x for k, x in inp.items() if x}
             what += "; witness: %s" % json.dumps(dict(list(nz.items())[:12]))
